@@ -34,6 +34,7 @@ ENV = {"ASAN_OPTIONS": "detect_leaks=0:abort_on_error=0:exitcode=99:allocator_ma
 
 HOSTS = os.path.join(ROOT, "corpus", "C14", "hosts.txt")
 RESOLV = os.path.join(ROOT, "corpus", "C14", "resolv.conf")
+ALIASES = os.path.join(ROOT, "corpus", "C14", "hostaliases.txt")
 FRESH_TOKEN = 900
 
 
@@ -49,10 +50,12 @@ def drain(rounds):
     return ";".join(["adv 20000;proct"] * rounds)
 
 
-def tail(rounds, ops):
+def tail(rounds, ops, cfg=""):
     # the first `run` lets a TCP connection become writable and transmit; harmless on UDP
     rsp = "cookie=echo,an=A:9.9.9.9" if "cookie=echo" in ops else "an=A:9.9.9.9"
-    return "%s;query %d fresh.example IN A;run;rspall %s;run;%s" % (drain(rounds), FRESH_TOKEN, rsp, drain(rounds))
+    # with a pending-write callback the application has to flush
+    flush = "flushwrites;" if "pendingwritecb=1" in cfg else ""
+    return "%s;query %d fresh.example IN A;%srun;rspall %s;run;%s" % (drain(rounds), FRESH_TOKEN, flush, rsp, drain(rounds))
 
 
 def family(rng, tier):
@@ -110,7 +113,7 @@ def family(rng, tier):
 
     # ---- getaddrinfo / gethostby* / getnameinfo ----
     add("gai-both", "servers=1",
-        "gai 1 www.%s 0 0x80 http;rsp x0 an=A:1.2.3.4+A:1.2.3.5;rsp x1 an=AAAA:[2001:db8::1];run;rspall an=A:1.2.3.4+A:1.2.3.5;run" % a, quick=True)
+        "gai 1 www.%s 0 0x80 http;rsp x0 an=A:1.2.3.4+A:1.2.3.5;rsp x1 an=AAAA:[2001:db8::1];run;rspall an=A:1.2.3.4+A:1.2.3.5+AAAA:[2001:db8::1];run" % a, quick=True)
     add("gai-sort-cname", "servers=1 sortlist=10.0.0.0/8",
         "gai 1 www.%s 4 0x2;rspall an=CNAME:real.%s+A:192.168.1.1@real.%s+A:10.2.3.4@real.%s;run" % (m, m, m, m))
     add("gai-hosts-file", "servers=1 lookups=fb hosts=%s" % HOSTS, "gai 1 filehost.example 0 0x80;gai 2 v6only.example 6 0x80")
@@ -138,6 +141,57 @@ def family(rng, tier):
     # no tail: a failing `setservers` leaves the (empty) previous configuration in force
     add("setservers-empty", "servers=1", "send 1 %s IN A rd;setservers -;send 2 %s IN A rd;setservers 10.0.0.3;servers;destroy" % (a, m), t=False)
 
+    # ---- legacy server APIs, ares_dup, reinit with a resolv.conf, sortlists ----
+    add("legacy-servers", "servers=1",
+        "setserversl 10.0.0.5,fd00::5;getservers;setserversp 10.0.0.6/5353/5354,10.0.0.7/0/0;getservers;servers;"
+        "setserverscsv 10.0.0.8,10.0.0.9;servers;setserversl -;getservers;setserversl 10.0.0.3;setserversl 10.0.0.4", quick=True)
+    add("legacy-servers-busy", "servers=2",
+        "send 1 %s IN A rd;setserversl 10.0.0.5;send 2 %s IN A rd;setserversp 10.0.0.1/53/53,10.0.0.6/5353/5354;rspall an=A:1.2.3.4;run" % (a, m))
+    add("dup-plain", "servers=2", "dup;opts", quick=(tier != "quick"))
+    add("dup-options",
+        "servers=2 servers6=1 flags=edns,dns0x20,stayopen ndots=2 udpmaxq=3 udpsize=1400 domains=a.test,b.test lookups=bf "
+        "sortlist=10.0.0.0/8,192.168.0.0/255.255.0.0 rotate=1 failover=10,5000 qcachettl=60 maxtimeout=4000 "
+        "localip4=10.1.1.1 localip6=fd00::99 localdev=eth9 hosts=%s resolvconf=%s" % (HOSTS, RESOLV),
+        "dup;send 1 %s IN A rd;dup;rspall an=A:1.2.3.4;run" % a, quick=True)
+    add("reinit-resolvconf", "servers=1 resolvconf=%s hosts=%s lookups=fb" % (RESOLV, HOSTS),
+        "reinit;servers;opts;send 1 %s IN A rd;reinit;rspall an=A:1.2.3.4;run;servers" % a, quick=True)
+    add("reinit-options", "servers=2 domains=a.test sortlist=10.0.0.0/8 resoptions=ndots:3,timeout:1,attempts:2,rotate localdomain=c.test,d.test resolvconf=%s" % RESOLV,
+        "reinit;opts;servers")
+    add("sortlist-forms", "servers=1",
+        "setsortlist 10.0.0.0/8,192.168.1.0/255.255.255.0,fd00::/16,172.16.0.0;opts;setsortlist 130.155.160.0/255.255.240.0;"
+        "setsortlist bogus/xx;gai 1 sorted.%s 4 0x0;rspall an=A:192.168.1.9+A:8.8.8.8+A:10.3.3.3;run" % a)
+    add("gai-sort-rfc6724", "servers=1",
+        "gai 1 many.%s 0 0x0 443 1;rsp x0 an=A:10.0.0.9+A:8.8.8.8+A:127.0.0.1+A:169.254.1.1;"
+        "rsp x1 an=AAAA:[2001:db8::1]+AAAA:[fe80::1]+AAAA:[::1]+AAAA:[fd00::7];run;"
+        # a re-sent query (after a lost answer) gets the complete set
+        "rspall an=A:10.0.0.9+A:8.8.8.8+A:127.0.0.1+A:169.254.1.1+AAAA:[2001:db8::1]+AAAA:[fe80::1]+AAAA:[::1]+AAAA:[fd00::7];run" % a)
+
+    # ---- search with HOSTALIASES, flags ----
+    add("search-aliases", "servers=1 domains=a.test hostaliases=%s" % ALIASES,
+        "search 1 short IN A rd;rspall an=A:1.2.3.4;run;gai 2 other 4 0x80;rspall an=A:5.6.7.8;run;osearch 3 short IN A;rspall an=A:1.2.3.4;run",
+        quick=True)
+    add("search-noaliases-nosearch", "servers=1 domains=a.test flags=noaliases,nosearch hostaliases=%s" % ALIASES,
+        "search 1 short IN A rd;rspall rcode=3;run;gai 2 short 4 0x80;rspall rcode=3;run")
+    add("search-localdomain", "servers=1 localdomain=l1.test,l2.test ndots=1",
+        "search 1 host IN AAAA rd;rspall rcode=3;run;rspall rcode=3;run;rspall an=AAAA:[2001:db8::9];run")
+
+    # ---- getnameinfo ----
+    add("gni-forms", "servers=1 lookups=fb hosts=%s" % HOSTS,
+        "gni 1 10.9.8.7 80 0x300;gni 2 fd00::8 53 0x310;gni 3 10.1.2.3 12345 0x30a;"
+        "gni 5 fd00::77 443 0x301;rspall an=PTR:ptr6.dom.%s;run;rspall an=PTR:ptr6.dom.%s;run;"
+        "gni 4 10.1.2.3 25 0x104;rspall rcode=3;run;rspall rcode=3;run" % (a, a), quick=(tier != "quick"))
+    add("ghbn-cname-chain", "servers=1",
+        "ghbn 1 www.%s 4;rspall an=CNAME:c1.%s+CNAME:c2.%s@c1.%s+A:1.2.3.4@c2.%s+A:1.2.3.5@c2.%s;run" % (m, m, m, m, m, m))
+    add("hosts-all-apis", "servers=1 lookups=f hosts=%s" % HOSTS,
+        "gai 1 filehost.example 0 0x82 http;ghbn 2 alias1.example 4;ghbn 3 v6only.example 6;ghba 4 10.9.8.7;ghba 5 fd00::8;"
+        "gni 6 10.9.8.8 80 0x300;gai 7 localhost 0 0x80;gai 8 missing.example 0 0x80")
+
+    # ---- legacy ares_process(fd_sets), pending-write callback ----
+    add("legacy-process-select", "servers=2 flags=noedns sockstatecb=1",
+        "send 1 %s IN A rd;fds;getsock;rspall rcode=2;procsel;procsel;rspall an=A:1.2.3.4;procsel;procsel" % a)
+    add("tcp-pendingwrite", "servers=1 flags=usevc,stayopen pendingwritecb=1",
+        "query 1 %s IN A;run;query 2 %s IN AAAA;flushwrites;run;rspall an=A:1.2.3.4;run;run" % (a, m))
+
     # ---- cancel / destroy ----
     add("cancel", "servers=2",
         "send 1 %s IN A rd;query 2 %s IN A;gai 3 www.%s 0 0x80;cancel;qlen" % (a, m, a), quick=True)
@@ -147,6 +201,15 @@ def family(rng, tier):
     # ---- error paths of the network layer ----
     add("socket-errors", "servers=2",
         "fail socket 1 EMFILE;send 1 %s IN A rd;fail connect 1 ECONNREFUSED;send 2 %s IN A rd;fail sendto 1 ECONNRESET;send 3 %s IN A rd;rspall an=A:1.2.3.4;run" % (a, m, lg))
+    # the branch modelled in coq/Alloc/SendWork.v: a refused write closes a connection that
+    # carries other requests; they are requeued, then the request itself
+    add("write-refused-requeue-others", "servers=2 flags=noedns",
+        "send 1 %s IN A rd;send 2 %s IN A rd;fail sendto 1 ECONNRESET;send 3 %s IN A rd;qlen;rspall an=A:1.2.3.4;run" % (a, m, lg),
+        quick=True)
+    add("write-refused-tcp", "servers=2 flags=usevc,stayopen",
+        "query 1 %s IN A;run;query 2 %s IN A;run;fail sendto 1 EPIPE;query 3 %s IN A;run;rspall an=A:1.2.3.4;run;run" % (a, m, lg))
+    add("write-refused-single-server", "servers=1 tries=1",
+        "send 1 %s IN A rd;fail sendto 1 ECONNRESET;send 2 %s IN A rd;rspall an=A:1.2.3.4;run" % (a, m))
     add("tcp-reset", "servers=2 flags=usevc",
         "query 1 %s IN A;run;reset s0;run;rspall an=A:1.2.3.4;run" % m)
     add("bad-responses", "servers=1",
@@ -167,7 +230,7 @@ def corpus_scenarios():
                 continue
             parts = line.split("|", 2)
             if len(parts) == 3:
-                cfg = parts[1].replace("@HOSTS@", HOSTS).replace("@RESOLV@", RESOLV)
+                cfg = parts[1].replace("@HOSTS@", HOSTS).replace("@RESOLV@", RESOLV).replace("@ALIASES@", ALIASES)
                 out.append(("corpus-" + parts[0], cfg, parts[2], True))
     return out
 
@@ -238,7 +301,7 @@ def parse_baseline(lines):
                 toks[t] = dict(ret="v", cbs=[])
                 order.append(t)
             toks[t]["cbs"].append("%d.%s%s" % (st, digest(pay), items_digest(pay)))
-        elif re.match(r"(SETSERVERS|SETSORTLIST|REINIT|SETSOCKFUNCS) rc=", l):
+        elif re.match(r"(SETSERVERS|SETSORTLIST|REINIT|SETSOCKFUNCS|SETSERVERSL|SETSERVERSP|SETSERVERSCSV|GETSERVERS|GETSERVERSP|DUP) rc=", l):
             k, rc = l.split(" rc=")
             api.append("%s.%s" % (k, rc.split()[0]))
         elif l.startswith("ALLOCS total="):
@@ -273,7 +336,7 @@ def run_baselines(exe, scen, workdir):
 
 
 def full_ops(cfg, ops, with_tail):
-    return ops + (";" + tail(tail_rounds(cfg), ops) if with_tail else "")
+    return ops + (";" + tail(tail_rounds(cfg), ops, cfg) if with_tail else "")
 
 
 def gen(rng, tier, n):
